@@ -92,16 +92,6 @@ func genCfg(r *rng, profile string) cfg {
 	if r.chance(10) {
 		nh = r.rangeIncl(1, 16)
 	}
-	// vam at the pinned commit sizes its external-memory-handle table by heap count but indexes it by
-	// memory type when core 1.1 is active (known finding, property C13): any vkAllocateMemory for a type
-	// index >= heap count panics. Not this engine's business: configurations that would hit it use API 1.0.
-	if c.api >= 11 && nt > nh {
-		if nt <= 16 && r.chance(50) {
-			nh = nt
-		} else if profile == "alloc" || r.chance(50) {
-			c.api = 10
-		}
-	}
 	for i := 0; i < nh; i++ {
 		c.heaps = append(c.heaps, heapSizes[r.intn(len(heapSizes))])
 	}
@@ -114,9 +104,6 @@ func genCfg(r *rng, profile string) cfg {
 	}
 	return c
 }
-
-// allocSafe: ALLOC* ops cannot run into the C13 panic described in genCfg
-func (c cfg) allocSafe() bool { return c.api < 11 || len(c.types) <= len(c.heaps) }
 
 var hostCombos = []uint32{0, 128, 256, 384, 512, 640, 768, 896}
 
@@ -232,7 +219,7 @@ func genOp(r *rng, c cfg, profile string) op {
 	if profile == "alloc" {
 		pAlloc = 75
 	}
-	if c.allocSafe() && r.chance(pAlloc) {
+	if r.chance(pAlloc) {
 		a := genQueryArgs(r, c, true)
 		size := uint64(r.rangeIncl(1, 4096))
 		fc := uint64(uint32(int32(failCodes[r.intn(len(failCodes))])))
